@@ -19,6 +19,7 @@ K_DANGLING = 'C17-dangling-and-accepted'
 K_MSTALE = 'C17-member-text-keeps-old-media-type'
 K_MCANON = 'C17-member-text-no-canonicalisation'
 K_MLOG = 'C17-member-rejected-in-logging-mode-empties-entry'
+K_IMPORT_FIRST = 'C17-import-media-feature-first'
 
 
 def _quiet():
@@ -1249,3 +1250,174 @@ def member_edits(ctx):
                         'bound': f'{core_b[0]} tokens exhaustively and neighbourhood of well-formed texts of <= {core_b[1]} tokens for all {len(ORIGINS)} origins, {depth} tokens / <= {vlen} tokens for {len(ext_origins)} origins; '
                                  f'one base list of {len(MBASE)} queries; one assignment per evaluation '
                                  '(longer mixed sequences: edit histories)'})
+
+
+# ----------------------------------------------------------------------------------------------------------------------------
+# feature values of every value kind, in every letter case
+VALUE_KINDS = [('number', ['2', '0.5', '-1', '+3']), ('number-exponent', ['1e3']), ('percentage', ['50%']),
+               ('dimension', ['10px', '1.5em', '300dpi', '2dppx']),
+               ('identifier', ['landscape', 'progressive']), ('colour-keyword', ['red', 'transparent']),
+               ('colour-function', ['rgb(0,0,0)', 'rgb(1, 2, 3)', 'rgba(0,0,0,1)', 'rgb(10%, 20%, 30%)', 'hsl(120, 50%, 50%)', 'hsla(0,0%,0%,0.5)']),
+               ('hash-colour', ['#fff', '#a0b1c2']), ('string', ['"ab"', "'ab'", '"a b"'])]
+VALUE_CASES = ('lower', 'upper', 'capitalised', 'inverse')
+VALUE_FEATURES = ('color', 'min-color', 'max-x-bg')
+W_VACC = 'bounded: a media query whose feature value is a number, dimension, identifier, colour or string in any letter case is accepted'
+W_VKEEP = 'bounded: every feature, value and their order survive parse and serialisation'
+W_VRULE = 'bounded: a rule owning a media query with such a feature value is kept with its media intact'
+
+
+def _recase(text, how):
+    """letter case of every alphabetic run: lower / UPPER / Capitalised / iNVERSE"""
+    if how == 'lower':
+        return text.lower()
+    if how == 'upper':
+        return text.upper()
+    f = (lambda w: w[:1].upper() + w[1:].lower()) if how == 'capitalised' else (lambda w: w[:1].lower() + w[1:].upper())
+    return re.sub(r'[A-Za-z]+', lambda m: f(m.group()), text)
+
+
+def spelled_values():
+    """[(kind, case, text)]: every value in every letter case that gives a different text"""
+    out = []
+    for kind, vals in VALUE_KINDS:
+        for v in vals:
+            seen = set()
+            for how in VALUE_CASES:
+                t = _recase(v, how)
+                if t not in seen:
+                    seen.add(t)
+                    out.append((kind, how, t))
+    return out
+
+
+def _vnorm(v):
+    """what 'intact' means for a value: a string keeps its content exactly (the quotes may change); everything else is compared without regard to letter case and
+    white space (CSS keywords, units, function names and hexadecimal digits are case-insensitive)"""
+    if v is None:
+        return None
+    v = v.strip()
+    if v[:1] in '"\'' and v[-1:] == v[:1] and len(v) >= 2:
+        return ('string', v[1:-1])
+    return re.sub(r'[ \t\r\n\f]+', '', v).lower()
+
+
+def _snorm(struct):
+    return (struct[0], struct[1], tuple((f, _vnorm(v)) for f, v in struct[2]))
+
+
+def _value_worker(args):
+    cases, = args
+    cssutils = _quiet()
+    from cssutils.stylesheets import MediaList as ML, MediaQuery as MQ
+    n = 0
+    kinds = set()
+    fails = []
+    for kind, how, v, feat, fcase in cases:
+        f_spelled = _recase(feat, fcase)
+        e = (feat, v)
+        shapes = [(None, 'screen', (e,)), (None, None, (e,)), ('not', 'tv', (('min-width', '10px'), e, ('color', None))), ('only', 'print', (e, e))]
+        for st in shapes:
+            parts = []
+            if st[0]:
+                parts.append(st[0])
+            if st[1]:
+                parts.append(st[1])
+            head = ' '.join(parts)
+            es = ['(%s)' % (f_spelled if f == feat else f) if val is None else '(%s: %s)' % (f_spelled if f == feat else f, val) for f, val in st[2]]
+            text = ' and '.join(([head] if head else []) + es)
+            inp = {'mediaText': text, 'value kind': kind, 'case': how}
+            want = _snorm(st)
+            kinds.add((kind, how, feat, fcase, st[0], st[1] is None, len(st[2])))
+            if _snorm(read_query(text)) != want:
+                raise AssertionError(f'oracle premise: reader and renderer disagree on {text!r}')
+            # 1. the query alone
+            n += 1
+            _clean()
+            try:
+                mq = MQ(text)
+                ok = mq.wellformed
+            except Exception:
+                ok = False
+            if not ok:
+                fails.append((W_VACC, f'MediaQuery({text!r}) is rejected', None, inp))
+            else:
+                out = mq.mediaText
+                try:
+                    got = _snorm(read_query(out))
+                except ValueError:
+                    got = None
+                if got != want:
+                    fails.append((W_VKEEP, f'{text!r} -> {out!r}', None, inp))
+                _clean()
+                try:
+                    out2 = MQ(out).mediaText
+                except Exception as ex:
+                    out2 = f'<{type(ex).__name__}>'
+                if out2 != out:
+                    fails.append(('bounded: serialised query is a fixpoint', f'{text!r} -> {out!r} -> {out2!r}', None, inp))
+            # 2. between two neighbours in a list: the list is accepted with its three entries in order
+            n += 1
+            ltext = 'tv, ' + text + ', print'
+            lwant = [(None, 'tv', ()), want, (None, 'print', ())]
+            ml = make(ML, ltext)
+            if ml is None:
+                fails.append((W_VACC, f'MediaList({ltext!r}) is rejected as a whole', None, dict(inp, mediaText=ltext)))
+            else:
+                out = ml.mediaText
+                try:
+                    got = [_snorm(x) for x in read_list(out)]
+                except ValueError:
+                    got = None
+                if got != lwant or ml.length != 3 or len(list(ml)) != 3:
+                    fails.append((W_VKEEP, f'{ltext!r} -> {out!r} (length {ml.length})', None, dict(inp, mediaText=ltext)))
+                else:
+                    _clean()
+                    try:
+                        again = ML(out)
+                        t2, l2 = again.mediaText, again.length
+                    except Exception as ex:
+                        t2, l2 = f'<{type(ex).__name__}>', -1
+                    if t2 != out or l2 != 3:
+                        fails.append(('bounded: mediaText reparses to an equal list', f'{ltext!r} -> {out!r} -> {t2!r} (length {l2})', None, dict(inp, mediaText=ltext)))
+            # 3. owned by an @media and an @import rule, through the parser
+            for owner, css in (('@media', '@media %s { a { left: 0 } }' % text), ('@import', '@import "x.css" %s;' % text)):
+                n += 1
+                _clean()
+                try:
+                    sheet = cssutils.parseString(css)
+                    rules = [r for r in sheet.cssRules]
+                    mt = rules[0].media.mediaText if len(rules) == 1 and hasattr(rules[0], 'media') else None
+                except Exception as ex:
+                    rules, mt = [], f'<{type(ex).__name__}: {ex}>'
+                try:
+                    got = [_snorm(x) for x in read_list(mt)] if mt is not None else None
+                except ValueError:
+                    got = None
+                if len(rules) != 1 or got != [want]:
+                    # class of the recorded finding K_IMPORT_FIRST: an @import whose first media query starts with '(' is dropped whatever the value is
+                    kid = K_IMPORT_FIRST if owner == '@import' and text.startswith('(') and not rules else None
+                    fails.append((W_VRULE, f'{css!r}: {len(rules)} rule(s), media {mt!r}', kid, {'cssText': css, 'value kind': kind, 'case': how, 'owner': owner}))
+    return n, kinds, fails
+
+
+def value_kinds(ctx):
+    """feature values of every value kind the statement names (length / dimension, number, identifier, colour as keyword, function and hash) plus percentage and string,
+    each in lower, upper and mixed letter case, under a plain / min- / max- feature, alone, in a list and owned by a rule"""
+    _premise()
+    cases = [(kind, how, v, feat, fcase) for kind, how, v in spelled_values() for feat in VALUE_FEATURES for fcase in ('lower', 'upper')]
+    res = _run_pool(ctx, _value_worker, [(c,) for c in _chunks(cases, 4 * (ctx.jobs or 1))])
+    n = sum(r[0] for r in res)
+    kinds = set().union(*[r[1] for r in res]) if res else set()
+    _report(ctx, [f for r in res for f in r[2]])
+    cssutils = _quiet()
+    _clean()
+    ctx.known_finding(K_IMPORT_FIRST, cssutils.parseString('@import "x.css" (color: 2);').cssRules.length == 0
+                      and cssutils.parseString('@import "x.css" tv, (color: 2);').cssRules.length == 1)
+    ctx.bounded.append({'name': 'feature values of every kind in every letter case', 'evaluations': n, 'distinct_nontrivial': len(kinds), 'exhaustive': True,
+                        'rule': f'{len(spelled_values())} spelled values ({", ".join(k for k, _ in VALUE_KINDS)}; each in lower / upper / capitalised / inverse letter case where that changes '
+                                f'the text) x {len(VALUE_FEATURES)} features (plain, min-, max-) in lower and upper case x 4 query shapes (typed, untyped, not + three expressions with the '
+                                'value in the middle, only + the expression twice): parsed as MediaQuery, as the middle entry of a three-entry MediaList, and as the media of an @media and an '
+                                '@import rule through parseString; the serialised text is read back by the independent scanner; a value is intact when it is equal up to letter case and white '
+                                'space (strings: equal content); distinct = (value kind, case, feature, feature case, query shape)',
+                        'samples': [{'mediaText': 'screen and (color: RGB(0,0,0))'}, {'mediaText': 'tv, (MIN-COLOR: 10Px), print'}],
+                        'bound': 'fixed values per kind; ratios (16/9) are not in the statement and not accepted by cssutils, calc()/url() values likewise'})
